@@ -16,6 +16,8 @@ case "$ID" in
   C01) TARGETS="c01_bytes c01_ops"; MAXLEN=65536 ;;
   C02) TARGETS="c02_shape"; MAXLEN=4096 ;;
   C05) TARGETS="c05_tape"; MAXLEN=3600 ;;
+  C11) TARGETS="c11_woff2"; MAXLEN=4096 ;;
+  C16) TARGETS="c16_glyf"; MAXLEN=2560 ;;
   *) exit 0 ;;
 esac
 NT=$(echo $TARGETS | wc -w)
